@@ -1,7 +1,8 @@
 //! C05 - identities, context and credential identifier are bound, unambiguously.
 //! Enumerated: triples (parameters at registration, at server login start, at client login finish) - 10 slots - in
 //! five families: matched families and <=k deviations from them; all 28x28 pairs of boundary-shifted splits of one
-//! concatenation; all pairs of 255/256/65535-byte values differing in length or last byte; all ordered pairs of
+//! concatenation; all pairs of 255/256/65535-byte values differing in length or last byte; aliases that a mis-encoded
+//! 2-byte length prefix of a 255..513-byte context / client identity would create; all ordered pairs of
 //! credential identifiers; and (thorough, fast suites) the full product over a 5x5x4 alphabet.
 //! Ghost oracle from the specification: effective identity = given value or that party's static public key;
 //! effective context = given or empty.  Login succeeds (with equal keys) iff the three effective client identities
@@ -261,6 +262,46 @@ pub fn triples(tier: Tier) -> Vec<Triple> {
             let mut t = Triple::matched("near-miss/ids", &V::Absent, x, &V::Absent, al::CID_DEFAULT);
             t.c_ids = y.clone();
             out.push(t);
+        }
+    }
+    // (iv-d) aliases under a MIS-ENCODED LENGTH PREFIX: if the 2-byte length of an L-byte context (or client identity)
+    // were written as some smaller l (wrapped, reduced, shifted, truncated), then the value cut after l bytes followed by
+    // the NEXT field made of the rest - with the rest's own length spelled inside the long value at offset l - would give
+    // the same transcript.  Every such pair differs in its effective values, so the login must fail; both directions.
+    let i2 = |n: usize| [(n >> 8) as u8, (n & 255) as u8];
+    for big in [255usize, 256, 257, 510, 511, 512, 513] {
+        let mut ls = vec![0usize, 1, 2, 3, big % 255, big % 256, big >> 8, big & 0x7f, big - 255];
+        ls.sort();
+        ls.dedup();
+        for l in ls.into_iter().filter(|l| l + 2 <= big) {
+            // context C (big bytes) + client identity "alice"  ~  context C[..l] + client identity C[l+2..] || 00 05 || "alice"
+            let tail = b"alice";
+            let mut c = vec![b'c'; big];
+            let next_len = big - l - 2 + 2 + tail.len();
+            c[l..l + 2].copy_from_slice(&i2(next_len));
+            let next: Vec<u8> = [&c[l + 2..], &i2(tail.len())[..], &tail[..]].concat();
+            let (long_ctx, long_idu) = (V::B(c.clone()), V::B(tail.to_vec()));
+            let (short_ctx, short_idu) = (V::B(c[..l].to_vec()), V::B(next.clone()));
+            for (sc, su, cc, cu) in [(&short_ctx, &short_idu, &long_ctx, &long_idu), (&long_ctx, &long_idu, &short_ctx, &short_idu)] {
+                let mut t = Triple::matched("length-prefix-alias/ctx->idu", cu, &V::Absent, cc, al::CID_DEFAULT);
+                t.s_ctx = sc.clone();
+                t.s_idu = su.clone();
+                out.push(t);
+            }
+            // client identity U (big bytes) + server identity "server"  ~  client identity U[..l] + server identity U[l+2..] || 00 06 || "server"
+            let tail = b"server";
+            let mut u = vec![b'u'; big];
+            let next_len = big - l - 2 + 2 + tail.len();
+            u[l..l + 2].copy_from_slice(&i2(next_len));
+            let next: Vec<u8> = [&u[l + 2..], &i2(tail.len())[..], &tail[..]].concat();
+            let (long_u, long_s) = (V::B(u.clone()), V::B(tail.to_vec()));
+            let (short_u, short_s) = (V::B(u[..l].to_vec()), V::B(next));
+            for (su, ss, cu, cs) in [(&short_u, &short_s, &long_u, &long_s), (&long_u, &long_s, &short_u, &short_s)] {
+                let mut t = Triple::matched("length-prefix-alias/idu->ids", cu, cs, &V::Absent, al::CID_DEFAULT);
+                t.s_idu = su.clone();
+                t.s_ids = ss.clone();
+                out.push(t);
+            }
         }
     }
     // (v) all ordered pairs of credential identifiers
